@@ -28,6 +28,11 @@ func (ja *JSONAccessor) Set(key string, value interface{}) error {
 		if err != nil {
 			return err
 		}
+	} else {
+		err := checkJSONParents(func(path string) gjson.Result { return gjson.Get(*ja.json, path) }, key)
+		if err != nil {
+			return err
+		}
 	}
 
 	newJSON, err := sjson.Set(*ja.json, key, value)
@@ -35,6 +40,27 @@ func (ja *JSONAccessor) Set(key string, value interface{}) error {
 		return err
 	}
 	*ja.json = newJSON
+	return nil
+}
+
+// checkJSONParents checks that a key that does not exist yet would not be
+// created below an existing string, number or bool: sjson replaces such a
+// value by a new object.
+func checkJSONParents(get func(path string) gjson.Result, key string) error {
+	for i := len(key) - 1; i > 0; i-- {
+		if key[i] != '.' || key[i-1] == '\\' {
+			continue
+		}
+		parent := get(key[:i])
+		if !parent.Exists() {
+			continue
+		}
+		// The nearest existing ancestor decides.
+		if parent.IsObject() || parent.IsArray() || parent.Type == gjson.Null {
+			return nil
+		}
+		return fmt.Errorf("tried to set %s below field %s (%s)", key, key[:i], parent.Type.String())
+	}
 	return nil
 }
 
